@@ -29,6 +29,17 @@ func vfH_C10_refuse() {
 		W = vfChoice("W", 2)
 	}
 	st := vfBuildState(env, key, H, W, 0, 1)
+	if H == 0 && vfChoice("idlewaiter", 2) == 1 {
+		// an unheld key that nevertheless has a manager: a wait-when-unlocked request queued while this node led
+		q := env.newCmd(protocol.COMMAND_LOCK, key, vfLockId(11))
+		q.Timeout, q.TimeoutFlag, q.Expried, q.ExpriedFlag = 50, protocol.TIMEOUT_FLAG_LOCK_WAIT_WHEN_UNLOCK, 3, 0x0200
+		n := len(env.replies)
+		env.lock(1, q)
+		vfAssume(len(env.replies) == n)
+		st.m = env.manager(key)
+		W = 1
+		vfReach("idle-waiter")
+	}
 	env.db.status = vfNonLeaderStatus("status")
 	pre := vfTakeSnap(st.m)
 	state := env.db.states[0]
@@ -46,7 +57,7 @@ func vfH_C10_refuse() {
 	}
 	replies := env.replies[nReplies:]
 	vfAssert(len(replies) == 1, "C10: a non-leader did not answer the request exactly once")
-	if op == 1 && H == 0 {
+	if op == 1 && !pre.exists {
 		// nothing is known about the key on this node: UNLOCK_ERROR is also a refusal that changes nothing
 		vfAssert(replies[0].result == protocol.RESULT_STATE_ERROR || replies[0].result == protocol.RESULT_UNLOCK_ERROR, "C10: a non-leader answered an unlock with something other than a refusal")
 	} else {
